@@ -52,7 +52,7 @@ fn recase(r: &mut Rng, s: &str) -> (String, bool) {
     }
 }
 
-fn gen_reqs(r: &mut Rng) -> (Reqs, bool) {
+pub fn gen_reqs(r: &mut Rng) -> (Reqs, bool) {
     let mut mixed = false;
     let mut pick_names = |r: &mut Rng, pool: &[&str], max: usize| -> Vec<String> {
         let n = r.usize_below(max + 1);
